@@ -310,7 +310,31 @@ func (g *Guard) Edges(fn *ssa.Function) eng.EdgeSet {
 			continue
 		}
 		h := singleRepoCallee(g.c, call)
-		if h == nil || h == fn || !g.Establishes(h) {
+		if h == nil || h == fn {
+			continue
+		}
+		// a forwarder that returns the guard call's own answer (`func (e *Entry) issuedSalt(s) bool { return e.gen.IsServerSalt(s) }`):
+		// its call is the guard call
+		if g.boolCall != nil && h.Signature.Results().Len() == 1 && h.Signature.Results().At(0).Type().String() == "bool" && len(h.Blocks) > 0 {
+			fwd, nr := true, 0
+			for _, r := range eng.Returns(h) {
+				nr++
+				gc, isCall := g.c.P.Resolve(retVal(g.c.P, r)).(*ssa.Call)
+				if !isCall || !g.boolCall(gc) {
+					fwd = false
+				}
+			}
+			if fwd && nr > 0 {
+				t, f := eng.BoolEdges(fn, func(v ssa.Value) bool { return v == ssa.Value(call) })
+				if g.want {
+					out = eng.Union(out, t)
+				} else {
+					out = eng.Union(out, f)
+				}
+				continue
+			}
+		}
+		if !g.Establishes(h) {
 			continue
 		}
 		sig := h.Signature
